@@ -89,7 +89,7 @@ func TestC10(t *testing.T) {
 	mon.Main(t, mon.Check{
 		ID:    "C10",
 		Level: "fault_enumeration",
-		Rule:  "real gbn handshake code in virtual time. Enumeration: every decision vector in {deliver, drop, duplicate in order, delay past the handshake timeout}^(2k) over the first k packets of each direction (k=2 quick: 256 vectors, k=3 thorough: 4096) x 3 start orders (client first, server first, same instant) x 18 stale-prefix configurations (packets of an earlier connection queued in either direction: SYN with another N, SYN(255), SYNACK, DATA, PING, ACK+NACK, FIN and mixes), full product in both tiers; window N rotating over {1,20,254} in quick, N=20 plus all N in 1..254 for the no-fault and single-fault rows in thorough. Drivers behave like the mailbox layer: the server re-listens after a failed or finished connection, the client re-dials (up to 40 attempts, 0.5 s apart) when a constructor fails or its first request is not answered within 20 s; keepalive as the mailbox configures it (7s/3s client, 5s/3s server); a third of the cases over links whose Send/Recv calls take 1 ns .. 1 µs. Oracles: a server that enters the data phase has a representable window (n != 255, sequence space n+1 > n) that appeared in some SYN delivered to it; when data flows both ends use the client's N; after the faulty prefix a handshake succeeds and one message is delivered in each direction within 15 virtual minutes; no worker death. Plus 144 transport-error cases: the k-th transport read or write (k in 1..4) of the server or of the client fails once with an error (nothing lost, the transport works afterwards) x 3 start orders x N in {1,20,254}; a constructor that returns neither a connection nor an error is a violation. Non-trivial = at least one fault decision or stale packet; distinct = (vector, order, stale, N).",
+		Rule:  "real gbn handshake code in virtual time. Enumeration: every decision vector in {deliver, drop, duplicate in order, delay past the handshake timeout}^(2k) over the first k packets of each direction (k=2 quick: 256 vectors, k=3 thorough: 4096) x 3 start orders (client first, server first, same instant) x 18 stale-prefix configurations (packets of an earlier connection queued in either direction: SYN with another N, SYN(255), SYNACK, DATA, PING, ACK+NACK, FIN and mixes), full product in both tiers; window N rotating over {1,20,254} in quick, N=20 plus all N in 1..254 for the no-fault and single-fault rows in thorough. Drivers behave like the mailbox layer: the server re-listens after a failed or finished connection, the client re-dials (up to 40 attempts, 0.5 s apart) when a constructor fails or its first request is not answered within 20 s; keepalive as the mailbox configures it (7s/3s client, 5s/3s server); a third of the cases over links whose Send/Recv calls take 1 ns .. 1 µs. Oracles: a server that enters the data phase has a representable window (n != 255, sequence space n+1 > n) that appeared in some SYN delivered to it; when data flows both ends use the client's N; after the faulty prefix a handshake succeeds and one message is delivered in each direction within 15 virtual minutes; no worker death. Plus 144 transport-error cases: the k-th transport read or write (k in 1..4) of the server or of the client fails once with an error (nothing lost, the transport works afterwards) x 3 start orders x N in {1,20,254}; a constructor that returns neither a connection nor an error is a violation. Plus the first-messages family (768 cases; in half of them the client's application waits 3 s, longer than the handshake timeout, before it sends): the client's first SYNACK delivered / dropped / delayed past the handshake timeout x {deliver, drop}^3 over the client's first three data packets x {deliver, drop}^2 over the server's first two x N in {1,2,3,20}; both applications send four messages the moment their constructor returns, and what the first connection of each side receives from the first connection of the other must be m0, m1, ... in order (the handshake may be completed by a data packet that is not the first one). Non-trivial = at least one fault decision or stale packet; distinct = (vector, order, stale, N).",
 		Assumptions: []string{
 			"stale SYNs that were really delivered to the server are not held against it (it cannot tell them apart)",
 			"transport preserves per-direction order",
@@ -97,9 +97,9 @@ func TestC10(t *testing.T) {
 		NCases: func(tier string) int {
 			_, v, s, o := c10Dims(tier)
 			if tier == "thorough" {
-				return v*s*o + 254*(1+2*6)*o + c10TransportErrCases
+				return v*s*o + 254*(1+2*6)*o + c10TransportErrCases + c10FirstDataCases
 			}
-			return v*o*s + c10TransportErrCases
+			return v*o*s + c10TransportErrCases + c10FirstDataCases
 		},
 		MinEvals: 100,
 		Run:      runC10,
@@ -138,6 +138,10 @@ func runC10(c *mon.Case) {
 	enum := nv * ns * no
 	if c.Tier == "thorough" {
 		enum += 254 * (1 + 2*6) * no
+	}
+	if c.Idx >= enum+c10TransportErrCases {
+		runC10FirstData(c, c.Idx-enum-c10TransportErrCases)
+		return
 	}
 	if c.Idx >= enum {
 		j := c.Idx - enum
@@ -419,6 +423,176 @@ func runC10Case(c *mon.Case, k int, vec []int, order, stale int, n uint8, te c10
 		c.Shard.Eval("")
 	}
 	if c.Idx%1500 == 7 {
+		c.Shard.Sample(rep)
+	}
+}
+
+// c10FirstDataCases: the first-messages family. 3 fates of the client's first
+// SYNACK x {deliver, drop}^3 over the client's first three data packets x
+// {deliver, drop}^2 over the server's first two x N in {1,2,3,20}.
+const c10FirstDataCases = 3 * 8 * 4 * 4 * 2
+
+// runC10FirstData: the handshake is completed by something other than the
+// SYNACK. The client is in the data phase as soon as it has seen the echo of
+// its SYN and starts to send at once; if its SYNACK is lost or late, the
+// server leaves the handshake through its restarted-handshake paths, possibly
+// on a DATA packet that is not the client's first one. Whatever path is taken,
+// the messages of the first connection pair must arrive as a prefix of what was
+// sent (C01's oracle at the point where the two protocols meet): both
+// applications send a burst of four messages the moment their constructor
+// returns. Only the first connection of each side is judged - a later
+// connection may legitimately receive packets of the earlier one that are
+// still in the transport (GBN packets carry no connection id), which is outside
+// what C10 and C01 promise.
+func runC10FirstData(c *mon.Case, j int) {
+	synack := j % 3
+	cd := (j / 3) % 8
+	sd := (j / 24) % 4
+	n := []uint8{1, 2, 3, 20}[(j/96)%4]
+	// In half of the cases the client's application waits for longer than
+	// the handshake timeout (and less than its ping interval) before it
+	// sends: a server whose wait for the SYNACK has timed out by then is
+	// back in its first state and completes on whatever SYNACK or DATA
+	// packet comes next.
+	wait := []time.Duration{0, 3 * time.Second}[(j/384)%2]
+	hs := 2 * time.Second
+	conf := eng.GBNConf{N: n, HSTimeout: hs, PingC: 7 * time.Second, PongC: 3 * time.Second, PingS: 5 * time.Second, PongS: 3 * time.Second, Lat: 5 * time.Millisecond}
+	key := fmt.Sprintf("first-data|synack=%d|c=%03b|s=%02b|N=%d|wait=%s", synack, cd, sd, n, wait)
+	rep := map[string]any{"family": "first-messages", "client_synack": []string{"delivered", "dropped", "delayed past the handshake timeout"}[synack],
+		"client_waits_before_sending": wait.String(), "client_data_drops_bitmask": cd, "server_data_drops_bitmask": sd, "N": n, "conf": conf.String()}
+	const burst = 4
+	synctest.Test(c.T, func(t *testing.T) {
+		ctx, cancel := context.WithCancel(context.Background())
+		defer cancel()
+		p := eng.NewPair(conf)
+		var nSynAck, nCData, nSData int
+		p.C2S.SetDecider(func(idx int, pk sim.Pkt, now time.Time) sim.Decision {
+			switch {
+			case pk.Type == sim.TSynAck:
+				nSynAck++
+				if nSynAck == 1 {
+					switch synack {
+					case 1:
+						return sim.Decision{Drop: true}
+					case 2:
+						return sim.Decision{Delay: hs + 500*time.Millisecond}
+					}
+				}
+			case pk.Type == sim.TData && !pk.Ping:
+				nCData++
+				if nCData <= 3 && cd&(1<<(nCData-1)) != 0 {
+					return sim.Decision{Drop: true}
+				}
+			}
+			return sim.Decision{}
+		})
+		p.S2C.SetDecider(func(idx int, pk sim.Pkt, now time.Time) sim.Decision {
+			if pk.Type == sim.TData && !pk.Ping {
+				nSData++
+				if nSData <= 2 && sd&(1<<(nSData-1)) != 0 {
+					return sim.Decision{Drop: true}
+				}
+			}
+			return sim.Decision{}
+		})
+		var mu sync.Mutex
+		var srvGot, cliGot []string
+		var wg sync.WaitGroup
+		app := func(g *gbn.GoBackNConn, tag string, got *[]string) {
+			var w sync.WaitGroup
+			w.Add(1)
+			go func() {
+				defer w.Done()
+				if tag == "c1" && wait > 0 {
+					time.Sleep(wait)
+				}
+				for i := 0; i < burst; i++ {
+					if g.Send([]byte(fmt.Sprintf("%s-m%d", tag, i))) != nil {
+						return
+					}
+				}
+			}()
+			for {
+				b, err := g.Recv()
+				if err != nil {
+					break
+				}
+				mu.Lock()
+				*got = append(*got, string(b))
+				mu.Unlock()
+			}
+			_ = g.Close()
+			w.Wait()
+		}
+		wg.Add(2)
+		go func() {
+			defer wg.Done()
+			first := true
+			for ctx.Err() == nil {
+				g, err := gbn.NewServerConn(ctx, p.S2C.Send, p.C2S.Recv, conf.ServerOpts()...)
+				if err != nil || g == nil {
+					select {
+					case <-ctx.Done():
+					case <-time.After(100 * time.Millisecond):
+					}
+					continue
+				}
+				if !first {
+					// later connections are not judged; keep the peer busy
+					var sink []string
+					app(g, "s-later", &sink)
+					continue
+				}
+				first = false
+				app(g, "s1", &srvGot)
+			}
+		}()
+		go func() {
+			defer wg.Done()
+			time.Sleep(300 * time.Millisecond)
+			g, err := gbn.NewClientConn(ctx, n, p.C2S.Send, p.S2C.Recv, conf.ClientOpts()...)
+			if err != nil || g == nil {
+				return
+			}
+			app(g, "c1", &cliGot)
+		}()
+		time.Sleep(90 * time.Second)
+		mu.Lock()
+		sg, cg := append([]string{}, srvGot...), append([]string{}, cliGot...)
+		mu.Unlock()
+		rep["server_received"], rep["client_received"] = sg, cg
+		check := func(who, tag string, got []string) {
+			// messages of the judged peer connection must be m0, m1, ... in
+			// order; messages of a later connection of the peer may follow
+			// a re-dial and are not judged
+			next := 0
+			for _, m := range got {
+				if !strings.HasPrefix(m, tag+"-m") {
+					continue
+				}
+				if m != fmt.Sprintf("%s-m%d", tag, next) {
+					rep["wire_c2s"] = wireTail(p.C2S.Log(), 40)
+					rep["wire_s2c"] = wireTail(p.S2C.Log(), 40)
+					c.Shard.Violate("first-messages-not-a-prefix", fmt.Sprintf("%s's first connection received %q where message %d of the peer's first connection was due (received so far: %v)", who, m, next, got), rep)
+					return
+				}
+				next++
+			}
+			c.Shard.Count("first_messages_delivered", int64(next))
+		}
+		check("server", "c1", sg)
+		check("client", "s1", cg)
+		cancel()
+		p.C2S.Close()
+		p.S2C.Close()
+		wg.Wait()
+		if lk := eng.Settle(); len(lk) > 0 {
+			c.Shard.Inconc("leak after first-messages scenario (judged by C12): " + lk[0].CreatedBy())
+			mon.FlushAndExit(c.Shard)
+		}
+	})
+	c.Shard.Eval(key)
+	if j%150 == 7 {
 		c.Shard.Sample(rep)
 	}
 }
